@@ -197,7 +197,8 @@ structure LSt where
   writes : List (BitVec 32)
   /-- ghost: the addresses written by statements that are not listed (code and pad bytes inside include files) -/
   quiet : List (BitVec 32)
-  /-- ghost: no block written so far wrapped around 2^32 -/
+  /-- ghost: no block written so far wrapped around 2^32, and no instruction or .repeat block ended exactly at 2^32
+  (then the location counter is 0 and `list_output(start, 0)` lists nothing) -/
   nowrap : Bool
 
 /-- number of bytes a data directive places -/
@@ -255,7 +256,7 @@ def execSimple (cfg : Cfg) (ls : LSt) : Simple → Except Err LSt
     let calls := if cfg.listing ∧ listed then ls.calls ++ [mkCall cfg st'.memory start st'.address first] else ls.calls
     .ok { st := st', calls, writes := ls.writes ++ written,
           quiet := if listed then ls.quiet else ls.quiet ++ written,
-          nowrap := ls.nowrap && decide (start.toNat + es.skip + es.pad.length + es.code.length ≤ 4294967296) }
+          nowrap := ls.nowrap && decide (start.toNat + es.skip + es.pad.length + es.code.length < 4294967296) }
 
 def execSimples (cfg : Cfg) (ls : LSt) : List Simple → Except Err LSt
   | [] => .ok ls
@@ -320,7 +321,7 @@ def execStmt (cfg : Cfg) (ls : LSt) : Stmt → Except Err LSt
                      else ls1.calls
         .ok { st := st2, calls, writes := ls1.writes ++ copyWrites cfg ls1.st.pass stop n count,
               quiet := if listed then ls1.quiet else ls1.quiet ++ copyWrites cfg ls1.st.pass stop n count,
-              nowrap := ls1.nowrap && decide (stop.toNat + n * (count - 1) ≤ 4294967296) }
+              nowrap := ls1.nowrap && decide (stop.toNat + n * (count - 1) < 4294967296) }
 
 def execStmts (cfg : Cfg) (ls : LSt) : List Stmt → Except Err LSt
   | [] => .ok ls
